@@ -40,6 +40,8 @@ func sortStr(s Sort) string {
 		return "Bool"
 	case KBV:
 		return fmt.Sprintf("(_ BitVec %d)", s.W)
+	case KInt:
+		return "Int"
 	}
 	return "(_ FloatingPoint 11 53)"
 }
@@ -78,6 +80,11 @@ func (p *Printer) ref(t *Term) string {
 			return "false"
 		case KBV:
 			return bvLit(t.Sort.W, t.U)
+		case KInt:
+			if int64(t.U) < 0 {
+				return fmt.Sprintf("(- %d)", -int64(t.U))
+			}
+			return fmt.Sprintf("%d", int64(t.U))
 		default:
 			return fpLit(t.U)
 		}
@@ -109,7 +116,7 @@ func (p *Printer) define(t *Term) {
 	var body string
 	switch t.Op {
 	case ONot, OAnd, OOr, OIte, OEq, OAdd, OSub, OMul, OUDiv, OURem, OSDiv, OSRem, OBAnd, OBOr, OBXor,
-		OShl, OLShr, OAShr, ONeg, OBNot, OULt, OULe, OSLt, OSLe, OConcat:
+		OShl, OLShr, OAShr, ONeg, OBNot, OULt, OULe, OSLt, OSLe, OConcat, OILt, OILe:
 		body = nary(t.Op.String())
 	case OExtract:
 		body = fmt.Sprintf("((_ extract %d %d) %s)", t.I, t.J, a(0))
@@ -117,6 +124,8 @@ func (p *Printer) define(t *Term) {
 		body = fmt.Sprintf("((_ zero_extend %d) %s)", t.Sort.W-t.Args[0].Sort.W, a(0))
 	case OSExt:
 		body = fmt.Sprintf("((_ sign_extend %d) %s)", t.Sort.W-t.Args[0].Sort.W, a(0))
+	case OFFromKey:
+		panic("print: key-backed float used outside comparisons: " + t.String())
 	case OFFromBits:
 		body = fmt.Sprintf("((_ to_fp 11 53) %s)", a(0))
 	case OFGrid:
@@ -541,8 +550,22 @@ func parseValues(txt string, m Model) {
 			case strings.HasPrefix(v, "#b"):
 				u, _ := strconv.ParseUint(v[2:], 2, 64)
 				m[name] = u
+			default:
+				if n, err := strconv.ParseInt(v, 10, 64); err == nil {
+					m[name] = uint64(n)
+				}
 			}
 		case []interface{}:
+			// (- N)
+			if len(v) == 2 {
+				if s0, ok := v[0].(string); ok && s0 == "-" {
+					if s1, ok := v[1].(string); ok {
+						if n, err := strconv.ParseInt(s1, 10, 64); err == nil {
+							m[name] = uint64(-n)
+						}
+					}
+				}
+			}
 			// (_ bvN w)
 			if len(v) == 3 {
 				if s0, ok := v[0].(string); ok && s0 == "_" {
